@@ -8,6 +8,7 @@ import Driver.Common
 import Driver.Song
 import Ctrmml.Model.MdDriver
 import Ctrmml.Model.MdsData
+import Ctrmml.Spec.Schedule
 namespace Driver.MdDrvD
 open Ctrmml Ctrmml.MdDriver Driver
 
@@ -68,7 +69,55 @@ def model (arg : String) : String :=
       | .error e => errName e
       | .ok b => s!"vgm len={b.length} fnv={hex64 (fnv64 b)} hex={hexOfBytes b}"
 
-def judge (_arg _impl : String) : String := "skip"
+/-! ### the spec oracle on the implementation's answer -/
+open Ctrmml.Schedule in
+def insTabOf (tags : TagList) : InsTab :=
+  tags.filterMap fun (key, ws) =>
+    match (key.drop 1).toString.toNat? with
+    | none => none
+    | some id =>
+      match ws with
+      | "fm" :: rest => some ((id : Int), fmOfTag (rest.map fun w => (parseInt? w).getD 0))
+      | "psg" :: first :: _ =>
+        let ds := first.toList.takeWhile Char.isDigit
+        if ds.isEmpty ∨ first.contains '>' then some ((id : Int), .other)   -- a slide's first frame is C11's subject
+        else some ((id : Int), .psg (min 15 ((String.ofList ds).toNat?.getD 0)))
+      | _ => some ((id : Int), .other)
+
+def getField (impl key : String) : Option String :=
+  (words impl).findSome? fun w => if w.startsWith (key ++ "=") then some (w.drop (key.length + 1)).toString else none
+
+/-- the song stays inside the plain subset and every channel track is structurally valid -/
+def plainValid (song : Song) : Bool :=
+  (song.tracks.all fun (_, t) => t.all fun e =>
+    e.type ≠ Tables.ev_PLATFORM ∧ e.type ≠ Tables.ev_PAN ∧ e.type ≠ Tables.ev_PORTAMENTO ∧ e.type ≠ Tables.ev_PITCH_ENVELOPE
+      ∧ e.type ≠ Tables.ev_PAN_ENVELOPE ∧ e.type ≠ Tables.ev_DRUM_MODE) &&
+  ((song.tracks.filter (·.1 < 16)).all fun (_, r) => match Expand.perf song r with | .ok _ => true | .error _ => false)
+
+def judge (arg impl : String) : String :=
+  match parseReq arg with
+  | none => "skip"
+  | some r =>
+    if impl.startsWith "exc:" then
+      if plainValid r.song ∧ r.tags.all (fun kv => match kv.2 with | "fm" :: rest => rest.length ≥ 42 | "psg" :: _ :: _ => true | _ => false)
+      then "fail export-failed a valid plain-subset song does not export: " ++ impl else "skip"
+    else
+      match getField impl "hex" with
+      | none => "fail no-file"
+      | some hex =>
+        match bytesOfHex hex with
+        | none => "fail no-file"
+        | some f =>
+          match VgmSpec.analyse f with
+          | .error why => s!"fail vgm-malformed {why}"
+          | .ok info =>
+            match Schedule.judgeLog r.song (insTabOf r.tags) info with
+            | .error "invalid" => "skip"
+            | .error why => s!"fail {why}"
+            | .ok v =>
+              match v.fail with
+              | some w => s!"fail {w}"
+              | none => s!"ok notes={v.notes} extent={v.extent}"
 
 def handlers : List Driver.Handler :=
   [{ cmd := "mdvgm", model := model, judge := judge }]
